@@ -1,7 +1,7 @@
 """C14 — vcheck configuration (PROP) and MANIFEST claim (CHECK)."""
 PROP = {
     'module': 'UmProps.C14',
-    'gen_modules': ['Consts', 'CmdTables', 'NodesTable'],
+    'gen_modules': ['Consts', 'CmdTables', 'NodesTable', 'ChunkTables', 'ProtoConsts'],
     'streams': [{'name': 'nodes', 'harness': 'umh_nodes', 'driver': 'nodes'}],
     'assumptions': [
         'the installed view has the partition property (theorem hypothesis `Partition`, the harness checks it on the '
@@ -16,6 +16,10 @@ PROP = {
         'the phase map is whatever `MigrationMap::get_states` returns: theorems quantify over every map '
         'RangeList -> Option MigrationState; the bystander clause additionally uses that keys are range lists of local '
         'tagged ranges (`StatesOfLocalTasks`, what `update_from_old_task_map` builds)',
+        'install histories: `set_meta` / `update_from_old_task_map` / `handle_switch` are C02\'s model (UmModel/RouteE2E.lean '
+        '`setMeta`, `updateTasks`, `handleSwitch`; lemmas `setMeta_installed`, `setMeta_last_only`), reused through '
+        'UmModel/ClusterNodesHist.lean; the driver keeps that task map across `install` lines and prints it (`tasks`) '
+        'against `UMCTL INFO` after every SETCLUSTER',
         'HashMap iteration order (node maps, task map) is arbitrary: node maps are lists in visiting order, theorems '
         'hold for every list; the harness canonicalises the replies (sorts lines, slot tokens of a line, SLOTS entries)',
         'crc64 2.0.0 `crc64(0, ..)` = bit-serial reflected CRC-64/Jones of UmModel/ClusterNodes.lean (checked on the '
@@ -50,9 +54,15 @@ CHECK = {
             'not under migration is advertised at its owner, the proxy executes it locally iff that is itself and otherwise '
             'answers MOVED to (or forwards to) exactly that address; a migrating slot is advertised at the source iff the state '
             'found under its range list is PreCheck and at the destination otherwise (every later state; bystanders have no '
-            'state). should_ignore_slots is a generated truth table. Checked every run against the real proxy: hand-built '
+            'state). On a long-lived proxy (C14_history_last_only / C14_install_history / C14_new_migration_at_source): after '
+            'any accepted SETCLUSTER the replies are those of the last accepted metadata with the phase map of a task map that '
+            'has a task for every tagged local range - kept ones in their phase, new ones in PreCheck - so a migration newly '
+            'exposed next to running ones is advertised at its source until its own handshake. should_ignore_slots is a '
+            'generated truth table. Checked every run against the real proxy: hand-built '
             'partitions (source / destination / bystander), views served by the real broker MetaStore mid-migration, '
-            'perturbed metas, both formats, textual and compressed SETCLUSTER, phases driven through UMCTL PRECHECK/PRESWITCH/'
+            'perturbed metas, install histories of 2-4 SETCLUSTERs on the same proxy process (migrations hidden by the migration '
+            'limit, exposed later before/after running ones on the same node, committed; task map compared after every install), '
+            'both formats, textual and compressed SETCLUSTER, phases driven through UMCTL PRECHECK/PRESWITCH/'
             'FINALSWITCH and the real RedisScanMigratingTask; oracle on the implementation: all 16384 slots advertised once, '
             'NODES = SLOTS, advertisement = routing probes.',
     'note': 'Trusted: Lean kernel; extract_nodes.py; harness fakes and canonicalisation; crc64 crate tied differentially. '
